@@ -273,6 +273,17 @@ func c01Check(env *core.Env, cc core.Case) core.Verdict {
 	}
 	if bad := c01Judge(run, p.Main, ref, &v, rerun); bad != nil {
 		bad.Features = v.Features
+		if bad.Status == core.Violated && bad.Finding == "" {
+			// finding F41 (C06): the output is exactly the plain reading of the text in which exclusions and pairs were
+			// applied to the affix texts of wrapped include files
+			if mp, err := ra.Inline(p.Main, &p.Files, ra.InlineOpts{Includes: true, Definitions: true, AffixAsEntries: true}); err == nil && mp != plain {
+				if mref, err := ra.Reference(mp, crsConfig); err == nil {
+					if lr := langCompare(run.Out, mref); lr.Status == "equal" {
+						bad.Finding = "F41"
+					}
+				}
+			}
+		}
 		return *bad
 	}
 	naive := len(ra.Entries(plain)) >= 2 && run.Out != ref
